@@ -28,7 +28,11 @@ MCView == <<allVars>>
 
 \* State identity for the exported graph
 Compact(f) == [k \in {x \in DOMAIN f : f[x] # <<>>} |-> f[k]]
-Ident == <<thState, thCpu, ooc, [t \in DOMAIN ch |-> Compact(ch[t])], ttasks, ttypes, tbodies,
+\* (records are flattened to tuples: TLC does not print record fields in a canonical order)
+Ident == <<thState, thCpu, ooc, [t \in DOMAIN ch |-> Compact(ch[t])],
+           {<<x.m, x.l, x.p, x.id, x.label, x.flags>> : x \in ttasks},
+           {<<x.m, x.l, x.p, x.id, x.label>> : x \in ttypes},
+           [k \in DOMAIN tbodies |-> <<tbodies[k].st, tbodies[k].it>>],
            Compact(tstack), [t \in DOMAIN mk |-> Compact(mk[t])], failed, unspec>>
 
 ASSUME PrintT(<<"SYS", ToJson([threads |-> System.threads, cpus |-> System.cpus,
@@ -106,4 +110,46 @@ SysC086 == SysC08({"O", "6"})
 AlphaC086 == Base08 \cup Regions("6", {1}, {"6C[", "6C]", "6U[", "6U]", "6Hw", "6HW"}) \cup Regions("6", {2}, {"6C[", "6C]"})
 SysC08K == SysC08({"O", "K"})
 AlphaC08K == Base08 \cup Regions("K", {1, 2}, {"KCO", "KCI"}) \cup Regions("O", {1}, {"OF[", "OF]"})
+
+(* ---- C07: task life-cycle ---- *)
+A(th, mc, m, a) == [th |-> th, m |-> m, mc |-> mc, a |-> a, j |-> FALSE]
+J(th, mc, m, a) == [th |-> th, m |-> m, mc |-> mc, a |-> a, j |-> TRUE]
+ThR(tid, pid, app, loom, rank) == [tid |-> tid, pid |-> pid, app |-> app, loom |-> loom, rank |-> rank]
+\* nOS-V: 2 threads of one process (rank 2), tasks: 1 normal, 2 parallel (bodies 1,2), type 1
+SysC07V == [threads |-> <<ThR(101, 1001, 1, 1, 2), ThR(102, 1001, 1, 1, 2)>>,
+            cpus |-> <<Cpu(1, 0, 10, FALSE), Cpu(1, 1, 11, FALSE), Cpu(1, -1, -1, TRUE)>>,
+            marks |-> <<>>, models |-> {"O", "V"}, nranks |-> 4]
+AlphaC07V == {E(1, "OHx", <<0, 101, 7>>), E(2, "OHx", <<1, 101, 7>>), E(1, "OHe", <<>>), E(2, "OHe", <<>>),
+              E(1, "OHp", <<>>), E(1, "OHr", <<>>)}
+             \cup {J(1, "V", "VYc", <<1, 5>>), A(1, "V", "VTc", <<1, 1>>), A(1, "V", "VTC", <<2, 1>>),
+                    A(1, "V", "VTc", <<3, 1>>)}
+             \cup {A(t, "V", m, <<1, 0>>) : t \in {1, 2}, m \in {"VTx", "VTe", "VTp", "VTr"}}
+             \cup {A(t, "V", m, <<2, b>>) : t \in {1, 2}, m \in {"VTx", "VTe"}, b \in {1, 2}}
+             \cup {A(1, "V", "VTp", <<2, 1>>), A(1, "V", "VTx", <<2, 0>>), A(1, "V", "VTx", <<1, 1>>)}
+             \cup {A(1, "V", m, <<3, 0>>) : m \in {"VTx", "VTe"}}
+             \cup {A(1, "V", "VTx", <<9, 0>>), A(1, "V", "VTc", <<4, 9>>), A(1, "V", "VTx", <<1>>)}
+\* Nanos6: relaxed nesting, no parallel tasks, body id always 1
+SysC076 == [threads |-> <<ThR(101, 1001, 1, 1, -1), ThR(102, 1001, 1, 1, -1)>>,
+            cpus |-> <<Cpu(1, 0, 10, FALSE), Cpu(1, 1, 11, FALSE), Cpu(1, -1, -1, TRUE)>>,
+            marks |-> <<>>, models |-> {"O", "6"}]
+AlphaC076 == {E(1, "OHx", <<0, 101, 7>>), E(2, "OHx", <<1, 101, 7>>), E(1, "OHe", <<>>), E(2, "OHe", <<>>),
+              E(1, "OHp", <<>>), E(1, "OHr", <<>>)}
+             \cup {J(1, "6", "6Yc", <<1, 5>>), J(1, "6", "6Yc", <<2, 6>>), A(1, "6", "6Tc", <<1, 1>>),
+                    A(1, "6", "6Tc", <<2, 2>>), A(1, "6", "6Tc", <<3, 1>>)}
+             \cup {A(t, "6", m, <<k>>) : t \in {1, 2}, m \in {"6Tx", "6Te", "6Tp", "6Tr"}, k \in {1, 2}}
+             \cup {A(1, "6", m, <<3>>) : m \in {"6Tx", "6Te"}}
+             \cup {G(1, "6", "6C["), G(1, "6", "6C]")}
+             \cup {A(1, "6", "6Tx", <<9>>), A(1, "6", "6Tc", <<4, 9>>), A(1, "6", "6Tc", <<5, 1, 0>>), A(1, "6", "6Yc", <<3, 7>>)}
+
+(* ---- C17: marks (emulator side). type 1 = stack, type 2 = single ---- *)
+SysC17 == [threads |-> <<Th(101, 1001, 1, 1), Th(102, 1001, 1, 1)>>,
+           cpus |-> <<Cpu(1, 0, 10, FALSE), Cpu(1, 1, 11, FALSE), Cpu(1, -1, -1, TRUE)>>,
+           marks |-> <<[type |-> 1, stack |-> TRUE], [type |-> 2, stack |-> FALSE]>>, models |-> {"O"}]
+AlphaC17 == {E(1, "OHx", <<0, 101, 7>>), E(2, "OHx", <<1, 101, 7>>), E(2, "OHx", <<0, 101, 7>>),
+             E(1, "OHe", <<>>), E(2, "OHe", <<>>), E(1, "OHp", <<>>), E(1, "OHr", <<>>), E(1, "OHc", <<>>),
+             E(1, "OAs", <<1>>)}
+            \cup {E(t, m, <<v, 1>>) : t \in {1, 2}, m \in {"OM[", "OM]"}, v \in {1, 2}}
+            \cup {E(t, "OM=", <<v, 2>>) : t \in {1, 2}, v \in {1, 2}}
+            \cup {E(1, "OM=", <<1, 1>>), E(1, "OM[", <<1, 2>>), E(1, "OM]", <<1, 2>>), E(1, "OM[", <<0, 1>>),
+                   E(1, "OM=", <<0, 2>>), E(1, "OM[", <<1, 3>>), E(1, "OM[", <<1>>)}
 =============================================================================
